@@ -9,6 +9,7 @@
 EXTENDS AlphWatcher, TLC
 
 CONSTANTS MaxB, MaxEv, MaxH, MaxClock, PageSize, MaxReorg, MaxFail, MaxReq, MaxLook, MaxPerBlock,
+          SharedTx,     \* TRUE: the events mined into one block belong to ONE transaction (several messages per tx)
           Boots,        \* FALSE: the polling path is never started (re-observation-only instance)
           Profile,      \* which template catalogue
           Mainnets      \* subset of BOOLEAN
@@ -65,7 +66,7 @@ MineBlock(ts) ==
     /\ NB < MaxB /\ Len(stream) + Len(ts) <= MaxEv /\ height < MaxH
     /\ LET b == NB + 1 IN
        /\ blocks' = Put(blocks, b, [height |-> height + 1, ts |-> clock, main |-> TRUE])
-       /\ stream' = stream \o [i \in 1..Len(ts) |-> Mk(ts[i], cnt.nid + i, b, cnt.nid + i)]
+       /\ stream' = stream \o [i \in 1..Len(ts) |-> Mk(ts[i], cnt.nid + i, b, IF SharedTx THEN cnt.nid + 1 ELSE cnt.nid + i)]
     /\ height' = height + 1
     /\ cnt' = [cnt EXCEPT !.nid = @ + Len(ts)]
     /\ UNCHANGED <<foreign, tokans, clock>> /\ EnvKeep
